@@ -1066,7 +1066,7 @@ func writeDispatchFacts(path string, p *pkgInfo) {
 	dop := p.funcs["graph.doProcess"]
 	facts := map[string]bool{}
 	order := []string{"sendsGuardedByCtx", "noLiveBareSend", "collectorHasCtxArm", "collectorChecksClosed", "closeAfterWait", "closeOnce",
-		"addBeforeRootCall", "addBeforeSpawn", "doProcessDefersDone", "rangeChecksCtxBeforeStart", "childGetsReturnedEvent", "sinkFlagFromType", "childrenSpawnedWithGo", "rootCalledInline"}
+		"addBeforeRootCall", "addBeforeSpawn", "doProcessDefersDone", "rangeChecksCtxBeforeStart", "childGetsReturnedEvent", "sinkFlagFromType", "childrenSpawnedWithGo", "rootCalledInline", "errorEndsTraversalFirst"}
 	for _, k := range order {
 		facts[k] = false
 	}
@@ -1121,6 +1121,21 @@ func writeDispatchFacts(path string, p *pkgInfo) {
 		facts["childrenSpawnedWithGo"] = strings.Contains(src, "go g.doProcess(")
 		facts["sinkFlagFromType"] = strings.Contains(src, "if node.node.Type() == NodeTypeSink {\n\t\tcompleteStatus.completeSinks = []NodeID{node.nodeID}")
 		facts["addBeforeSpawn"] = precededByAdd(p, dop.Body, "go g.doProcess(")
+		// the first test after node.Process is `if err != nil { ...; return }` at the top level of doProcess
+		for i, st := range dop.Body.List {
+			if strings.Contains(exprString(p.fset, st), "node.node.Process(ctx, e)") {
+				for _, nx := range dop.Body.List[i+1:] {
+					if strings.HasPrefix(exprString(p.fset, nx), "verifPoint(") {
+						continue
+					}
+					if ifs, ok := nx.(*ast.IfStmt); ok && exprString(p.fset, ifs.Cond) == "err != nil" && terminates(ifs.Body.List) {
+						facts["errorEndsTraversalFirst"] = true
+					}
+					break
+				}
+				break
+			}
+		}
 		// process
 		psrc := exprString(p.fset, proc.Body)
 		facts["addBeforeRootCall"] = precededByAdd(p, proc.Body, "g.doProcess(ctx, pipeline.rootNode")
